@@ -82,6 +82,7 @@ Record case := {
   k_rx : list (str * list str);
   k_existing : list str;
   k_schemas : list (str * option (list str));
+  k_templates : list str;                                       (* template names / urls that exist *)
   k_expand : list (str * list (str * list (str * str)));      (* package -> interface -> expansions *)
   k_sigkeys : list rkey;                                        (* replaceable types in the fixture signatures *)
   k_tdkeys : option (list str * list str);                      (* builtin templates: only these keys of the file-level / interface-level template-data are observable, and only when truthy *)
@@ -109,6 +110,8 @@ Definition accepts (rej : list str) (td : obj) : bool :=
 Definition file_fails (c : case) (f : fplan) : bool :=
   let fc := file_cfg f in
   (smem (f_path f) (k_existing c) && negb (is_true (c_ptr fc PForceFileWrite)))
+  || negb (smem (f_template f) (k_templates c))                       (* "template '..' does not exist" / download error *)
+  || negb (smem (str_of (c_ptr fc PFormatter)) [B "goimports"; B "gofmt"; B "noop"])   (* "unknown formatter type" *)
   || (is_true (c_ptr fc PRequireTemplateSchemaExists)
       && match get (str_of (c_ptr fc PTemplateSchema)) (k_schemas c) with
          | Some (Some rej) =>
@@ -141,6 +144,12 @@ Definition model_file (c : case) (f : fplan) : fobs :=
 
 Definition model_show (c : case) : outcome := initialize (k_disc c) (case_tree c).
 
+(* an interface listed in the configuration that the source package does not declare:
+   "interface not found in source", exit status 1 after the files were written *)
+Definition missing_listed (c : case) : bool :=
+  existsb (fun e => existsb (fun i => negb (smem (fst i) (match get (fst e) (k_src c) with Some l => l | None => [] end)))
+                            (pc_ifaces (snd e))) (k_pkgs c).
+
 Definition model_gen (c : case) : gobs :=
   match run_config (k_disc c) (case_tree c) with
   | Panic => GErr
@@ -150,7 +159,8 @@ Definition model_gen (c : case) : gobs :=
     | _ =>
       match make_plan (mocks_of (case_rx c) (case_ex c) t2 (k_src c)) with
       | PlanErr => GErr
-      | PlanOk fs => if existsb (file_fails c) fs then GErr else GOk (map (model_file c) fs)
+      | PlanOk fs =>
+        if existsb (file_fails c) fs || missing_listed c then GErr else GOk (map (model_file c) fs)
       end
     end
   end.
